@@ -38,24 +38,35 @@ def scn_assign(params):
         net = ipaddress.ip_network(params["tun"], strict=False)
         want = min(16, net.num_addresses - 3)
         wit = {"seed": seed, "params": params}
+        import socket
+        import struct
+        from simnet.advhist import PortRouter
         told = {}
         mcs = []
-        for j in range(want + 2):
-            mc = mclient.ModelClient("10.53.%d.%d" % (6 + j // 200, j % 200 + 1), (scen.SERVER_IP, 53), sim.domain, sim.password,
+        shared = params.get("shared_ip")          # every client behind one address (a NAT / a shared resolver), told apart by port
+        router = [None]
+
+        def mk(j):
+            ip = "10.53.6.1" if shared else "10.53.%d.%d" % (6 + j // 200, j % 200 + 1)
+            mc = mclient.ModelClient(ip, (scen.SERVER_IP, 53), sim.domain, sim.password,
                                      random.Random(rng.getrandbits(32)), qtype=rng.choice(list(proto.QTYPES.values())))
-            k.add_actor(mc.ip, mc)
-            pl = mc.version()
-            if not pl or pl[:4] != b"VACK":
-                if j < want:
-                    out["violations"].append(("C18:told:pool-smaller", "only %d of %d sessions could be created on %s (answer %r)" % (j, want, params["tun"], (pl or b"")[:8]), wit))
-                break
-            if j >= want:
-                out["violations"].append(("C18:told:pool-larger", "a %d-th session was created on %s (pool size %d)" % (j + 1, params["tun"], want), wit))
-                break
+            if shared:
+                mc.sport = 20000 + j
+                mc.kernel = k
+                if router[0] is None:
+                    router[0] = PortRouter(ip, mc)
+                    k.add_actor(ip, router[0])
+                else:
+                    router[0].children.append(mc)
+            else:
+                k.add_actor(mc.ip, mc)
+            return mc
+
+        def one_login(j, mc):
             r = mc.login()
             if mc.login_reply is None:
                 out["violations"].append(("C18:told:login-refused", "login of session %d on %s answered %r" % (j, params["tun"], r), wit))
-                break
+                return False
             out["stats"]["assign_logins"] += 1
             out["evaluations"] += 1
             f = r.split(b"-")
@@ -64,10 +75,8 @@ def scn_assign(params):
                 a = ipaddress.ip_address(t_cli)
             except (ValueError, IndexError, UnicodeDecodeError):
                 out["violations"].append(("C18:told:malformed", "login reply %r on %s" % (r[:60], params["tun"]), wit))
-                break
+                return False
             row = srv.snapshot[mc.userid] if mc.userid < len(srv.snapshot) else None
-            import socket
-            import struct
             table_ip = socket.inet_ntoa(struct.pack("<I", row["tun_ip"])) if row else None
             bad = None
             if t_srv != sip or t_bits != int(bits):
@@ -80,10 +89,49 @@ def scn_assign(params):
                 bad = "client address %s differs from the address the server routes to that slot (%s)" % (t_cli, table_ip)
             if bad:
                 out["violations"].append(("C18:told:" + bad.split(" ")[0] + "-" + bad.split(" ")[1], "login reply %r of session %d on %s: %s" % (r[:50], j, params["tun"], bad), wit))
-                break
+                return False
             told[t_cli] = j
             mc.tun_ip = t_cli
             mcs.append(mc)
+            return True
+
+        j = 0
+        go = True
+        while go and j < want + 2:
+            # one to three clients start up at about the same time: all version handshakes first, then the logins
+            group = rng.choice([1, 2, 2, 3]) if params.get("interleave") else 1
+            vs = []
+            for g in range(group):
+                mc = mk(j + g)
+                vs.append((j + g, mc, mc.version()))
+            for (jj, mc, pl) in vs:
+                if not pl or pl[:4] != b"VACK":
+                    if jj < want:
+                        out["violations"].append(("C18:told:pool-smaller", "only %d of %d sessions could be created on %s (answer %r)" % (jj, want, params["tun"], (pl or b"")[:8]), wit))
+                    go = False
+                    break
+                if jj >= want:
+                    out["violations"].append(("C18:told:pool-larger", "a %d-th session was created on %s (pool size %d)" % (jj + 1, params["tun"], want), wit))
+                    go = False
+                    break
+                if not one_login(jj, mc):
+                    go = False
+                    break
+            j += group
+        if not out["violations"] and mcs and params.get("bad_login"):
+            # somebody at a client's own address sends a login with a wrong response naming that live session (a second
+            # program behind the same NAT with a mistyped password): refused, and the session keeps its slot and address
+            victim = rng.choice(mcs)
+            keep = (victim.login_reply, victim.tun_ip)
+            r = victim.login(digest=bytes(rng.getrandbits(8) for _ in range(16)))
+            victim.login_reply, victim.tun_ip = keep
+            out["stats"]["assign_bad_logins"] = out["stats"].get("assign_bad_logins", 0) + 1
+            if r is not None and r[:4] != b"LNAK" and r[:5] != b"BADIP":
+                out["violations"].append(("C18:told:wrong-login-answered", "a login with a wrong response for live session %d was answered %r" % (victim.userid, r[:20]), wit))
+            row = srv.snapshot[victim.userid]
+            if not (row["active"] and row["authenticated"]) and not out["violations"]:
+                out["violations"].append(("C18:lookup:live-session-deactivated", "after a login with a wrong response naming it, live session %d (address %s) is no longer active/authenticated in the server's table"
+                                          % (victim.userid, victim.tun_ip), wit))
         if not out["violations"]:
             # routing by the told addresses
             for j, mc in enumerate(mcs):
@@ -165,7 +213,8 @@ def run(ctx):
             lo = rng.randrange(0, 256, size)
             host = lo + rng.randint(1, size - 2)
             nets.append("%d.%d.%d.%d/%d" % (base[0], base[1], base[2], host, bits))
-        plist = [{"idx": i, "seed": ctx.seed * 100000 + i, "rseed": rng.getrandbits(32), "tun": t} for i, t in enumerate(nets)]
+        plist = [{"idx": i, "seed": ctx.seed * 100000 + i, "rseed": rng.getrandbits(32), "tun": t, "shared_ip": i % 3 == 1,
+                  "interleave": i % 2 == 1, "bad_login": i % 4 < 2} for i, t in enumerate(nets)]
         sysres = core.Result()
         simrun.run_scenarios(sysres, b, scn_assign, plist, jobs=ctx.jobs)
         simrun.finalize_sets(sysres)
